@@ -4,6 +4,7 @@ import (
 	"strings"
 	"time"
 
+	"github.com/nyaruka/goflow/envs"
 	"github.com/nyaruka/goflow/flows"
 	"github.com/nyaruka/goflow/flows/events"
 	"github.com/nyaruka/goflow/flows/modifiers"
@@ -55,7 +56,7 @@ func (a *SetContactTimezoneAction) Execute(run flows.Run, step flows.Step, logMo
 	var tz *time.Location
 	var err error
 	if timezone != "" {
-		tz, err = time.LoadLocation(timezone)
+		tz, err = envs.LoadTimezone(timezone)
 		if err != nil {
 			logEvent(events.NewErrorf("unrecognized timezone: '%s'", timezone))
 			return nil
